@@ -121,6 +121,10 @@ def c01_phases(ctx):
         groups.append(walk_group("c01/%s/h5-roll" % alg, alg, [(w2, 2), (4, 5)], [30, 31, 32, 33, 63, 64, 127], [4096, 0]))
         groups.append(walk_group("c01/%s/8lvl" % alg, alg, [(4, 2), (2, 2)] * 4,
                                  [0, 3, 4, 255, 256, (1 << 16) - 1], [7]))
+        if ai == 0:
+            # eight levels of W1: the longest signatures RFC 8554 allows for this hash (69100 bytes)
+            groups.append(walk_group("c01/%s/8lvl-w1" % alg, alg, [(1, 2)] * 8, [0, (1 << 16) - 1], [7]))
+            groups.append(walk_group("c01/%s/7lvl-w1" % alg, alg, [(1, 2)] * 7, [0, (1 << 14) - 1], [7]))
         if not quick:
             groups.append(walk_group("c01/%s/h5" % alg, alg, [(w0, 5)], list(range(32)), MSG_LENS, chain=True))
             groups.append(walk_group("c01/%s/h5x5" % alg, alg, [(4, 5), (w1 if w1 != 8 else 2, 5)],
@@ -1101,3 +1105,23 @@ REGISTRY["C16"] = {"phases": c16_phases, "level": "other",
                        "the harness drops it in place inside zeroed storage and scans the storage) whose events are judged against the thin "
                        "SecretLifecycle.tla table/state machine by TLC; the exhausted-key clause is decided by trace validation of complete "
                        "lifetime walks (callback argument = WipedKey)"}}
+
+
+# RFC 8554 Appendix F vectors on the specification itself (anchor of the transcription)
+def vectors_design(ctx):
+    return [{"module": "MC_Vectors", "cfg": "MC_Vectors.cfg", "workers": 8, "xmx": "8g",
+             "env": {"VECTORS": os.path.join(vlib.SPEC, "vectors", "rfc8554.ndjson")}}]
+
+
+for _p in ("C02", "C07", "C01"):
+    REGISTRY[_p]["design"] = vectors_design
+
+
+def c01_design(ctx):
+    runs = vectors_design(ctx)
+    runs.append({"module": "MC_Complete", "cfg": "MC_Complete_quick.cfg" if ctx["tier"] == "quick" else "MC_Complete_full.cfg",
+                 "workers": 16, "xmx": "12g", "timeout": 3000})
+    return runs
+
+
+REGISTRY["C01"]["design"] = c01_design
